@@ -17,6 +17,7 @@ ASSUMPTIONS = [
     'the .p8 path is exercised with bytes inside Lua comments (LF excluded) so that the lexer accepts them',
 ]
 EXHAUSTIVE = {'quick': True, 'thorough': True}
+PYOPT_KINDS = ('random',)
 TIMEOUT = {'quick': 600, 'thorough': 1800}
 
 
